@@ -479,18 +479,42 @@ func ruleAggCombination(r *Run, rule string, fn *ssa.Function, kind string, elem
 		r.Check(ok && e.S(score) == "v", rule, key, site, "store ⇔ id new ∨ score > stored; the stored maximum is emitted", "text max does not keep the maximum per id")
 	case len(accs) == 0 && kind == "mean":
 		got := e.S(score)
-		okExpr := got == eDiv("f:sum", "f:count")
+		// the accumulator record: one float field (the running sum) and one integer field (the count), whatever they are called
+		sumF, cntF := "sum", "count"
+		allInstrs(fn, func(in ssa.Instruction) {
+			if fa, ok := in.(*ssa.FieldAddr); ok {
+				if pt, ok := fa.X.Type().Underlying().(*types.Pointer); ok {
+					if stt, ok := pt.Elem().Underlying().(*types.Struct); ok && stt.NumFields() == 2 {
+						var fl, it string
+						for i := 0; i < 2; i++ {
+							if b, isB := stt.Field(i).Type().Underlying().(*types.Basic); isB {
+								switch {
+								case b.Info()&types.IsFloat != 0:
+									fl = stt.Field(i).Name()
+								case b.Info()&types.IsInteger != 0:
+									it = stt.Field(i).Name()
+								}
+							}
+						}
+						if fl != "" && it != "" {
+							sumF, cntF = fl, it
+						}
+					}
+				}
+			}
+		})
+		okExpr := got == eDiv("f:"+sumF, "f:"+cntF)
 		// sum += score and count++ for every input
 		sumUpd, cntUpd := false, false
 		allInstrs(fn, func(in ssa.Instruction) {
 			if st, ok := in.(*ssa.Store); ok {
 				if fa, ok := st.Addr.(*ssa.FieldAddr); ok {
 					switch fieldName(fa.X.Type(), fa.Field) {
-					case "sum":
-						if s := e.S(st.Val); s == eAdd("f:sum", "f:Score") || s == eAdd("f:sum", "x") {
+					case sumF:
+						if s := e.S(st.Val); s == eAdd("f:"+sumF, "f:Score") || s == eAdd("f:"+sumF, "x") {
 							sumUpd = true
 						}
-					case "count":
+					case cntF:
 						if c.S(st.Val) == "("+c.S(fa)+"+c(1))" {
 							cntUpd = true
 						}
